@@ -283,11 +283,95 @@ def scenarios(ctx):
     v1pa = [F(path=True), F(path=True)]
     S.append(Scn('v1 paths load||dump', 'v1', v1pa, [[('load', full_doc(v1pa))], [('dump', dump_vals(v1pa))]],
                  engine='v1', modelled=False, regions=['F31']))
+    S.extend(nested_scenarios(ctx))
+    S.extend(env_new_names_scenarios(ctx))
     inner = {'name': 'Inner', 'engine': 'v0', 'wizard': False, 'fields': [{'name': 'xx_val', 'type': 'int'}], 'meta': {}}
     nest = Scn('nested class load||dump', 'nested', [F()], [[('load', [('exact', 0), ('raw', 'child', {'xxVal': 5})])],
                                                            [('dump', [('int', 1)])]], modelled=False, extra_classes=[inner])
     nest.nested = True
     S.append(nest)
+    return S
+
+
+class RawScn:
+    """A scenario given directly in the runner's JSON form (several main classes, shared nested classes,
+    env classes with secrets / dotenv files).  Direct predicate only: no program model."""
+    modelled = False
+    wiz = skipdef = False
+    kind = 'raw'
+
+    def __init__(self, name, family, classes, threads, engine='v0', files=None, regions=()):
+        if family == 'env_new_names' and not regions:
+            regions = ['F39']
+        self.name, self.family, self.classes, self.calls, self.engine = name, family, classes, threads, engine
+        self.threads = threads
+        self.files = files
+        self.regions = list(regions)
+        self.fields = []
+        self.subtypes = {}
+
+    def impl(self):
+        d = {'name': self.name, 'classes': self.classes, 'threads': self.calls, 'subtypes': {}}
+        if self.files:
+            d['files'] = self.files
+        return d
+
+
+def nested_scenarios(ctx):
+    """threads working on DIFFERENT main classes that SHARE nested classes (depth 1 and 2), first use, both engines,
+    load and dump, 2-3 threads"""
+    S = []
+    for eng in ('v0', 'v1'):
+        def C(name, fields):
+            return {'name': name, 'engine': eng, 'wizard': False, 'fields': fields, 'meta': {}}
+        inner = C('Inner', [{'name': 'xx_val', 'type': 'int'}])
+        mid = C('Mid', [{'name': 'inner', 'type': 'cls:Inner'}, {'name': 'mm_val', 'type': 'int', 'default': 3}])
+        o1 = C('Outer1', [{'name': 'inner', 'type': 'cls:Inner'}, {'name': 'nn_val', 'type': 'int'}])
+        o2 = C('Outer2', [{'name': 'inner', 'type': 'cls:Inner'}, {'name': 'ss_val', 'type': 'str'}])
+        d1 = C('Deep1', [{'name': 'mid', 'type': 'cls:Mid'}, {'name': 'nn_val', 'type': 'int'}])
+        d2 = C('Deep2', [{'name': 'mid', 'type': 'cls:Mid'}, {'name': 'inner', 'type': 'cls:Inner'}])
+        I = lambda x: {'inst': 'Inner', 'args': {'xx_val': x}}
+        M = lambda x: {'inst': 'Mid', 'args': {'inner': I(x), 'mm_val': 3}}
+        L = lambda c, doc: {'op': 'load', 'cls': c, 'doc': doc}
+        D = lambda c, args: {'op': 'dump', 'cls': c, 'args': args}
+        lo1, lo2 = L('Outer1', {'inner': {'xx_val': 1}, 'nn_val': 5}), L('Outer2', {'inner': {'xx_val': 2}, 'ss_val': 'v'})
+        li = L('Inner', {'xx_val': 9})
+        ld1 = L('Deep1', {'mid': {'inner': {'xx_val': 1}, 'mm_val': 4}, 'nn_val': 5})
+        ld2 = L('Deep2', {'mid': {'inner': {'xx_val': 2}}, 'inner': {'xx_val': 3}})
+        do1, do2 = D('Outer1', {'inner': I(1), 'nn_val': 5}), D('Outer2', {'inner': I(2), 'ss_val': 'v'})
+        dd1, dd2 = D('Deep1', {'mid': M(1), 'nn_val': 5}), D('Deep2', {'mid': M(2), 'inner': I(3)})
+        base = [inner, o1, o2]
+        deep = [inner, mid, d1, d2]
+        t = eng + ' shared nested: '
+        S.append(RawScn(t + 'load Outer1 || load Outer2', 'nested', base, [[lo1], [lo2]], engine=eng))
+        S.append(RawScn(t + 'load Inner || load Outer1', 'nested', base, [[li], [lo1]], engine=eng))
+        S.append(RawScn(t + 'dump Outer1 || dump Outer2', 'nested', base, [[do1], [do2]], engine=eng))
+        S.append(RawScn(t + 'load Outer1 || dump Outer2', 'nested', base, [[lo1], [do2]], engine=eng))
+        S.append(RawScn(t + 'depth 2 load Deep1 || load Deep2', 'nested', deep, [[ld1], [ld2]], engine=eng))
+        S.append(RawScn(t + 'depth 2 dump Deep1 || dump Deep2', 'nested', deep, [[dd1], [dd2]], engine=eng))
+        S.append(RawScn(t + '3 threads load Outer1 || load Outer2 || load Inner', 'nested', base, [[lo1], [lo2], [li]], engine=eng))
+        if ctx.tier == 'thorough':
+            S.append(RawScn(t + 'depth 2, 3 threads load Deep1 || dump Deep2 || load Mid', 'nested', deep,
+                            [[ld1], [dd2], [L('Mid', {'inner': {'xx_val': 7}})]], engine=eng))
+    return S
+
+
+def env_new_names_scenarios(ctx):
+    """two (three) EnvWizard instantiations that each bring NEW variable names (own secrets directory / dotenv file):
+    Env.reload(env) must not lose the names the other thread publishes"""
+    def E(name, extra):
+        return {'name': name, 'kind': 'env', 'fields': [{'name': 'my_var', 'type': 'int'}, {'name': extra, 'type': 'int'}]}
+    files = {'dirs': {'sa': {'ALPHA_SECRET': '11'}, 'sb': {'BETA_SECRET': '22'}}, 'dotenv': {'g.env': 'GAMMA_VAL=33\n'}}
+    ca = {'op': 'env', 'cls': 'EA', 'kwargs': {'_secrets_dir': '@sa'}}
+    cb = {'op': 'env', 'cls': 'EB', 'kwargs': {'_secrets_dir': '@sb'}}
+    cg = {'op': 'env', 'cls': 'EG', 'kwargs': {'_env_file': '@g.env'}}
+    classes = [E('EA', 'alpha_secret'), E('EB', 'beta_secret'), E('EG', 'gamma_val')]
+    S = [RawScn('env new names: secrets dir A || secrets dir B', 'env_new_names', classes, [[ca], [cb]], files=files),
+         RawScn('env new names: secrets dir A || dotenv file', 'env_new_names', classes, [[ca], [cg]], files=files),
+         RawScn('env new names warm: (plain, secrets A) || (plain, secrets B)', 'env_new_names', classes,
+                [[{'op': 'env', 'cls': 'EG', 'kwargs': {'_env_file': '@g.env'}}, ca], [cg, cb]], files=files)]
+    if ctx.tier == 'thorough':
+        S.append(RawScn('env new names: secrets A || secrets B || dotenv', 'env_new_names', classes, [[ca], [cb], [cg]], files=files))
     return S
 
 
@@ -355,6 +439,12 @@ def region_of(sc, run, t, j, o, ref_per):
         starters = {tid for tid, n in trace if n in CFG_BEGIN}
         if (not trace) or len(starters) >= 2:
             return 'F31'
+    # F39: both threads ran the getter of the cached class property Env.var_names (first access), and one of them
+    # brings new variable names that the other's late `setattr` discards
+    if sc.family == 'env_new_names' and err == 'MissingVars':
+        getters = {tid for tid, n in trace if n == 'env.var_names'}
+        if (not trace) or len(getters) >= 2:
+            return 'F39'
     return None
 
 
@@ -438,7 +528,12 @@ def run(ctx):
     # in p_reload, or outside the modelled calls: secrets / dotenv); hook extension H2b gives them yield points.
     KNOWN_SITES = {('lookups.py', 'reload', 'env_vars', 'update'), ('lookups.py', 'reload', 'cls.cleaned_to_env', 'update'),
                    ('lookups.py', 'update_with_secret_values', 'environ', 'update'),
-                   ('lookups.py', 'update_with_dotenv', 'environ', 'update')}
+                   ('lookups.py', 'update_with_dotenv', 'environ', 'update'),
+                   # single publications whose yield point sits in the caller / in the loop before them (modelled),
+                   # and Meta creation at class set-up time (outside the calls C20 quantifies over)
+                   ('class_helper.py', 'set_class_dumper', 'CLASS_TO_DUMPER', 'setitem'),
+                   ('class_helper.py', 'dataclass_field_to_default', 'FIELD_TO_DEFAULT', 'setitem'),
+                   ('class_helper.py', 'create_meta', '_META', 'setitem')}
     sites = probe.get('inplace_sites')
     if hook_ok:
         if sites is None or any('error' in x for x in sites):
@@ -447,7 +542,7 @@ def run(ctx):
             unguarded = [x for x in sites if (x['file'], x['function'], x['receiver'], x['op']) not in KNOWN_SITES]
             ctx.extra_cov['inplace_sites_without_yield_point'] = sites
             if unguarded:
-                ctx.broken_tie('hook H2 incomplete: shared state is mutated in place without a yield point at %s'
+                ctx.broken_tie('hook H2 incomplete: module-level / shared state is mutated without a yield point at %s'
                                % ', '.join('%s:%s `%s`' % (x['file'], x['line'], x['code']) for x in unguarded), unguarded)
 
     quick = ctx.tier == 'quick'
@@ -622,11 +717,15 @@ def run(ctx):
     ctx.notes.append('phase witnesses done at %.1fs' % (_time.time() - ctx.t0))
     # ---- supplementary: real threads, tiny switch interval -------------------------------------------
     stress = [sc for sc in scs if sc.name in ('plain load||load', 'plain dump||load', 'hook scan cold dump||dump',
-                                             'paths dump||load', 'env instantiate||instantiate', 'v1 plain load||load')]
+                                             'paths dump||load', 'env instantiate||instantiate', 'v1 plain load||load')
+              or sc.family in ('nested', 'env_new_names')]
     iters = 40 if quick else 300
 
     def do_stress(sc):
-        return ctx.impl('c20', {'op': 'stress', 'scenario': impl_scenario(sc), 'iters': iters, 'switch': 1e-6},
+        # first use of different main classes sharing nested classes: the window is a whole nested generation, a few
+        # hundred un-steered rounds hit it (each round in its own pristine process)
+        n = iters * (5 if sc.family == 'nested' and 'load' in sc.name and sc.engine == 'v0' else 2 if sc.family in ('nested', 'env_new_names') else 1)
+        return ctx.impl('c20', {'op': 'stress', 'scenario': impl_scenario(sc), 'iters': n, 'switch': 1e-6},
                         timeout=1500, extra_env=env)
     _t0 = _time.time()
     with cf.ThreadPoolExecutor(max_workers=6) as ex:
